@@ -135,7 +135,7 @@ def run(cx: Cx):
         if s.owner_q not in allowed:
             cx.violation('R-DISC', s.fn.qualname, f"cells-{s.kind}", f"{s.describe()}: the cell table is written outside the constructor / "
                          f"add_cell_component / remove_cell_component", where=s.where)
-    cx.floor('cell table write sites', len(sites), 5)
+    cx.floor('cell table write sites', len(sites), 3)
 
     # ------------------------------------------------------------ clause 3: ConstantGenerator
     cg_call = cx.fn(ENV + 'ConstantGenerator.__call__')
